@@ -69,6 +69,15 @@ def operand(rng, N, dtype, pattern):
     else:
         iv = gen.int_mv(rng, N, 'dense')
     dt = np.dtype(dtype)
+    if pattern == 'tiny' and dt.kind != 'i':
+        # non-zero coefficients far below the library's eps: they are still non-zero and must take part in the product
+        iv = gen.int_mv(rng, N, 'half')
+        sc = core.frac(2.0 ** -48) if dt == np.dtype('float64') or dt == np.dtype('complex128') else core.frac(2.0 ** -20)
+        vals = [core.frac(x) * sc for x in iv]
+        if dt.kind == 'f':
+            return np.array([float(v) for v in vals], dtype=dt), vals
+        cv = [complex(float(v), 0.0) for v in vals]
+        return np.array(cv, dtype=dt), cv
     if dt.kind == 'i':
         return np.array(iv, dtype=dt), iv
     if dt.kind == 'f':
@@ -103,7 +112,7 @@ def check_kernels(res, L, rng, tag, tier, jit):
     funcs = dict(gmt=L.gmt_func, omt=L.omt_func, imt=L.imt_func, lcmt=L.lcmt_func)
     gens = dict(gmt=L.gmt_func_generator, omt=L.omt_func_generator, imt=L.imt_func_generator, lcmt=L.lcmt_func_generator)
     dtypes = ['int64', 'float64', 'complex128'] + ([] if jit and tier == 'quick' else ['int32', 'float32', 'complex64'])
-    patterns = ['dense', 'sparse', 'single', 'zero', 'half']
+    patterns = ['dense', 'sparse', 'single', 'zero', 'half', 'tiny']
     for which, f in funcs.items():
         T = tables[which]
         for dt in dtypes:
